@@ -1,7 +1,7 @@
 //! SimAlloc: the simulated global allocator.
 //!
 //! A wrapper around `System` that the simulator owns:
-//!  * every block carries a header and 0xFD red zones in front of and behind the user area,
+//!  * every block carries a header and position-dependent red zones in front of and behind the user area,
 //!    verified on dealloc / realloc and, for the array's own buffer, after every step;
 //!  * fresh memory is poisoned with 0xCD and freed memory with 0xDD, so that an element read
 //!    from beyond `len` or after free fails its magic check;
@@ -22,7 +22,28 @@ pub const MODE_SLACK: u8 = 2;
 const PREFIX: usize = 64;
 const REAR: usize = 64;
 const HDR_MAGIC: u64 = 0x51AD_A110_C0DE_F00D;
-const RZ: u8 = 0xFD;
+/// Red-zone bytes depend on their position inside the zone: a stray block copy whose *source* also
+/// lies in a red zone (e.g. a compaction that reads and writes a few elements past the end) would
+/// copy a constant pattern onto itself and go unnoticed.
+#[inline]
+fn rz(i: usize) -> u8 {
+    ((i as u8).wrapping_mul(37)).wrapping_add(0x5D) | 0x80
+}
+
+unsafe fn fill_rz(p: *mut u8, n: usize) {
+    for i in 0..n {
+        p.add(i).write(rz(i));
+    }
+}
+
+unsafe fn rz_intact(p: *const u8, n: usize) -> bool {
+    for i in 0..n {
+        if p.add(i).read() != rz(i) {
+            return false;
+        }
+    }
+    true
+}
 const FRESH: u8 = 0xCD;
 const FREED: u8 = 0xDD;
 const MAX_REQ: usize = 256 << 20;
@@ -76,11 +97,11 @@ unsafe fn lay_front(user: *mut u8, size: usize, cap: usize) {
     h.write(HDR_MAGIC);
     h.add(1).write(size as u64);
     h.add(2).write(cap as u64);
-    std::ptr::write_bytes(user.sub(PREFIX - 24), RZ, PREFIX - 24);
+    fill_rz(user.sub(PREFIX - 24), PREFIX - 24);
 }
 
 unsafe fn lay_rear(user: *mut u8, size: usize, cap: usize) {
-    std::ptr::write_bytes(user.add(size), RZ, cap - size + REAR);
+    fill_rz(user.add(size), cap - size + REAR);
 }
 
 /// Verifies the block around `user`; returns 0 or a violation code.
@@ -94,12 +115,10 @@ unsafe fn verify(user: *mut u8) -> usize {
     if size > cap || cap > MAX_REQ * 2 + 128 {
         return V_HEADER;
     }
-    let front = std::slice::from_raw_parts(user.sub(PREFIX - 24), PREFIX - 24);
-    if front.iter().any(|&b| b != RZ) {
+    if !rz_intact(user.sub(PREFIX - 24), PREFIX - 24) {
         return V_FRONT;
     }
-    let rear = std::slice::from_raw_parts(user.add(size), cap - size + REAR);
-    if rear.iter().any(|&b| b != RZ) {
+    if !rz_intact(user.add(size), cap - size + REAR) {
         return V_REAR;
     }
     0
